@@ -36,6 +36,23 @@ def main():
     patch = os.path.join(dst, 'patch.diff')
     demo = os.path.join(dst, 'demo.py')
     meta = {'property': prop, 'name': name, 'ran_at': time.strftime('%Y-%m-%d %H:%M:%S')}
+    old = {}
+    if os.path.exists(os.path.join(dst, 'meta.json')):
+        try:
+            old = json.load(open(os.path.join(dst, 'meta.json')))
+        except Exception:
+            old = {}
+    notes_path = os.path.join(dst, 'notes.md')
+    if os.path.exists(notes_path):
+        meta['needs_to_manifest'] = ' '.join(open(notes_path).read().split())[:1200]
+    np_ = os.path.join(ROOT, 'seeded', 'NOTES.json')
+    if os.path.exists(np_):
+        nt = json.load(open(np_)).get(name, {})
+        meta['what'] = nt.get('what', '')
+        meta['strengthening'] = nt.get('added', '')
+    if skip_confirm and 'confirm' in old:
+        meta['confirm'] = old['confirm']
+        meta['confirmed'] = old.get('confirmed')
     if not skip_confirm:
         wt = f'/tmp/seedwt_{name}'
         sh(f'git -C /repo worktree remove --force {wt}')
